@@ -95,6 +95,13 @@ impl<T: Qcow2IoOps> Qcow2Dev<T> {
         let rt_size = h.reftable_clusters() << h.cluster_bits();
         let l1_entries = h.l1_table_entries() as u32;
 
+        // an image without refcount table, or of size zero (no L1 table), has
+        // no tables to load: refuse it instead of asserting in the allocator
+        // of the table buffers
+        if l1_size == 0 || rt_size == 0 {
+            return Err("qcow2 image without L1 or refcount table".into());
+        }
+
         log::info!(
             "l2 slice cache(bits: {} count {}), rb cache(bits: {} count {})",
             info.l2_slice_bits,
